@@ -111,4 +111,15 @@ example : frameRef ([2,0,0,0,0,1] ++ [2,0,0,0,0,2] ++ [0x81, 0x00, 0xe0, 0x00] +
 example : frameRef ([2,0,0,0,0,1] ++ [2,0,0,0,0,2] ++ [0x81, 0x00, 0xa0, 0x67] ++ [8, 0]) =
     some ([0, 0x67, 2,0,0,0,0,2], [0, 0x67, 2,0,0,0,0,1]) := by decide
 
+/-- the newest observation wins and leaves no trace of the older one: learning `a` behind `q` at `now'` after having learned it behind
+    `p` gives exactly the table that learning `(a, q)` alone gives (for every table, both peers, both times) — a station that moves is
+    not remembered at its old place; with `p = q`, `now = now'`: learning is idempotent -/
+theorem learn_overrides (t : Table) (now now' : Int) (a : Addr) (p q : PeerId) :
+    ((t.learn now a p).learn now' a q).cache = (t.learn now' a q).cache ∧
+    ((t.learn now a p).learn now' a q).claims = t.claims := by
+  constructor
+  · simp only [Table.learn, Table.cacheInsert, List.filter_cons, ne_eq, not_true_eq_false, decide_false, Bool.false_eq_true,
+      if_false, List.filter_filter, Bool.and_self]
+  · rfl
+
 end VpnCloud.Proofs.C13
